@@ -375,6 +375,7 @@ theorem mofProd_failed_is_identity (s : State) (ns : Name) (p : Prod) : AtomicAt
       | _ => exact atomicAt_raise _ _
   | qual q => unfold mofProd; exact setQualifier_failed_is_identity s ns q
   | syntaxError => unfold mofProd; exact atomicAt_raise _ _
+  | missingInclude => unfold mofProd; exact atomicAt_raise _ _
 
 /-- compile_mof_string / compile_mof_file: atomic for a failure at ANY production -/
 theorem compileMof_failed_is_identity (s : State) (ns : Name) (ps : List Prod) :
@@ -476,6 +477,11 @@ theorem compile_without_restore_not_atomic :
 theorem compile_without_restore_not_atomic_syntax :
     failsChanged (compileMofNoRestore wNs [.qual wQual, .syntaxError]) wS0 = true := by decide
 
+/-- the exception class does not matter: a missing include file (OSError, not a pywbem.Error) after compiled
+    productions leaves them in the repository as well when nothing is restored -/
+theorem compile_without_restore_not_atomic_oserror :
+    failsChanged (compileMofNoRestore wNs [.qual wQual, .cls wClassOk, .missingInclude]) wS0 = true := by decide
+
 /-- what DID hold for the original fold: a batch whose FIRST element is the rejected one changes nothing
     (this is all the existing tests looked at) -/
 theorem batch_atomic_partial_objects (s : State) (ns : Name) (o : Obj) (rest : List Obj) (e : PyExc)
@@ -562,6 +568,7 @@ example : (step wS0 (.createClass wNs wClassOk)).2 = none ∧ (step wS0 (.create
 example : (step wS0 (.addObjects wNs [.cls wClassOk, .cls wClassBad])) = (wS0, some .valueError) := by decide
 example : (step wS0 (.compileMof wNs [.cls wClassOk, .cls wClassBad])) = (wS0, some .mofDependencyError) := by decide
 example : (step wS0 (.compileMof wNs [.qual wQual, .syntaxError])) = (wS0, some .mofParseError) := by decide
+example : (step wS0 (.compileMof wNs [.qual wQual, .cls wClassOk, .missingInclude])) = (wS0, some .osError) := by decide
 example : (step wS1 (.createInstance wNs wInst)).2 = none := by decide +kernel
 example : (step wS0 (.removeNamespace wNs)).2 = none := by decide
 example : (step wS1 (.removeNamespace wNs)).2 = some (.cimError 20) := by decide
